@@ -23,6 +23,8 @@ def cases(tier, seed):
     b = bounds(tier)
     for (m, rows) in ((17, 65537), (70, 20001), (16, 70001), (3, 400003)) + (((33, 100003),) if tier == "thorough" else ()):
         yield {"m": m, "rows": rows}
+    for name in BASES:
+        yield {"base": name}
     K = 8
     for W, m in ((2, 3), (3, 3), (2, 4)):
         for k in range(K):
@@ -91,6 +93,120 @@ def _bigbatch(case):
     if ps.shape != exp_all.shape or not numpy.array_equal(ps, numpy.sort(exp_all, axis=1)):
         viol.append({"sig": "IntervalRegressor|predict_sorted != row-wise sorted predictions|" + cond, "msg": repr(case)})
     return {"viol": viol, "nontrivial": True, "states": 1, "transitions": rows, "outcome": ("big", m, rows)}
+
+
+BASES = ("linreg", "ridge", "lasso", "poisson", "gamma", "tweedie15", "tree", "knn", "svr-linear", "pipe-linreg", "link-square",
+         "link-attrs", "dummy", "huber", "ttr-log")
+
+
+def _base(name):
+    import numpy
+    from sklearn.base import BaseEstimator, RegressorMixin
+    from sklearn import linear_model as lm
+    if name == "linreg":
+        return lm.LinearRegression()
+    if name == "ridge":
+        return lm.Ridge(alpha=0.5)
+    if name == "lasso":
+        return lm.Lasso(alpha=0.01)
+    if name == "huber":
+        return lm.HuberRegressor()
+    if name == "poisson":
+        return lm.PoissonRegressor(alpha=0.01)
+    if name == "gamma":
+        return lm.GammaRegressor(alpha=0.01)
+    if name == "tweedie15":
+        return lm.TweedieRegressor(power=1.5, alpha=0.01, link="log")
+    if name == "tree":
+        from sklearn.tree import DecisionTreeRegressor
+        return DecisionTreeRegressor(max_depth=3, random_state=0)
+    if name == "knn":
+        from sklearn.neighbors import KNeighborsRegressor
+        return KNeighborsRegressor(n_neighbors=2)
+    if name == "svr-linear":
+        from sklearn.svm import SVR
+        return SVR(kernel="linear")
+    if name == "pipe-linreg":
+        from sklearn.pipeline import make_pipeline
+        from sklearn.preprocessing import StandardScaler
+        return make_pipeline(StandardScaler(), lm.LinearRegression())
+    if name == "dummy":
+        from sklearn.dummy import DummyRegressor
+        return DummyRegressor(strategy="median")
+    if name == "ttr-log":
+        from sklearn.compose import TransformedTargetRegressor
+        return TransformedTargetRegressor(regressor=lm.LinearRegression(), func=numpy.log, inverse_func=numpy.exp)
+
+    class LinkRegressor(BaseEstimator, RegressorMixin):
+        """A regressor that carries the fitted attributes of several families (coef_, intercept_, feature_importances_, tree_-less)
+        and whose prediction is NOT affine in them: nothing but its predict method says what it predicts."""
+        def __init__(self, rich=False):
+            self.rich = rich
+
+        def fit(self, X, y, sample_weight=None):
+            X = numpy.asarray(X, dtype=numpy.float64)
+            A = numpy.column_stack([X, numpy.ones(len(X))])
+            sol = numpy.linalg.lstsq(A, numpy.sqrt(numpy.abs(numpy.asarray(y, dtype=numpy.float64))), rcond=None)[0]
+            self.coef_, self.intercept_ = sol[:-1], float(sol[-1])
+            if self.rich:
+                self.feature_importances_ = numpy.abs(self.coef_)
+                self.n_features_in_ = X.shape[1]
+                self.estimators_ = []
+                self.dual_coef_ = self.coef_.reshape(1, -1)
+            return self
+
+        def predict(self, X):
+            return (numpy.asarray(X, dtype=numpy.float64) @ self.coef_ + self.intercept_) ** 2
+    return LinkRegressor(rich=name == "link-attrs")
+
+
+def _bases(case):
+    """The base-regressor dimension: linear, generalised linear (log link), kernel, tree, neighbour, pipeline and harness regressors;
+    whatever the base is, predict is the mean of the individual predictions, predict_sorted their row-wise sort."""
+    import numpy
+    from mlinsights.mlmodel import IntervalRegressor
+    viol = []
+    name = case["base"]
+    rs = numpy.random.RandomState(3)
+    X = rs.uniform(0.5, 3.0, size=(30, 2))
+    y = numpy.exp(0.4 * X[:, 0] - 0.3 * X[:, 1]) + rs.uniform(0.0, 0.5, size=30) + 0.5
+    w = rs.uniform(0.5, 2.0, size=30)
+    cnt = 0
+    for m in (2, 5):
+        for weighted in (False, True):
+            if weighted and name in ("knn", "pipe-linreg", "ttr-log"):
+                continue
+            numpy.random.seed(m)
+            cond = "base=%s" % name
+            try:
+                model = IntervalRegressor(estimator=_base(name), n_estimators=m, alpha=0.8).fit(X, y, sample_weight=w if weighted else None)
+            except Exception as e:
+                viol.append({"sig": "IntervalRegressor|fit raises %s|%s" % (type(e).__name__, cond), "msg": str(e)[:200]})
+                continue
+            for Q in (X[:7], rs.uniform(0.0, 4.0, size=(1, 2)), rs.uniform(0.0, 4.0, size=(33, 2))):
+                cnt += 1
+                exp_all = numpy.column_stack([numpy.asarray(e.predict(Q), dtype=numpy.float64).ravel() for e in model.estimators_])
+                try:
+                    pa = numpy.asarray(model.predict_all(Q))
+                    pm = numpy.asarray(model.predict(Q))
+                    ps = numpy.asarray(model.predict_sorted(Q))
+                except Exception as e:
+                    viol.append({"sig": "IntervalRegressor|predict raises %s|%s" % (type(e).__name__, cond), "msg": str(e)[:200]})
+                    continue
+                desc = "n_estimators=%d weighted=%s batch of %d rows" % (m, weighted, len(Q))
+                tol = 1e-9 * max(1.0, float(numpy.abs(exp_all).max()))
+                if pa.shape != exp_all.shape or not numpy.array_equal(pa, exp_all):
+                    viol.append({"sig": "IntervalRegressor|predict_all != individual predictions|" + cond, "msg": desc})
+                if pm.shape != (len(Q),) or numpy.abs(pm - exp_all.mean(axis=1)).max() > tol:
+                    viol.append({"sig": "IntervalRegressor|predict != mean of individual predictions|" + cond,
+                                 "msg": "%s: max difference %r" % (desc, float(numpy.abs(pm - exp_all.mean(axis=1)).max()) if pm.shape == (len(Q),) else pm.shape)})
+                if ps.shape != exp_all.shape or not numpy.array_equal(ps, numpy.sort(exp_all, axis=1)):
+                    viol.append({"sig": "IntervalRegressor|predict_sorted != row-wise sorted predictions|" + cond, "msg": desc})
+                elif pm.shape == (len(Q),) and ((pm < ps[:, 0] - tol) | (pm > ps[:, -1] + tol)).any():
+                    viol.append({"sig": "IntervalRegressor|predict outside [min, max]|" + cond, "msg": desc})
+    seen = set()
+    viol = [v for v in viol if not (v["sig"] in seen or seen.add(v["sig"]))]
+    return {"viol": viol, "nontrivial": True, "states": cnt, "transitions": cnt * 3, "outcome": ("base", name)}
 
 
 def _schedule(case):
@@ -203,6 +319,8 @@ def run_case(case):
         return _bigbatch(case)
     if case.get("kind") == "schedule":
         return _schedule(case)
+    if "base" in case:
+        return _bases(case)
 
     Recorder = _make_recorder()
     n, alpha, m, S = case["n"], case["alpha"], case["m"], case["S"]
